@@ -106,7 +106,7 @@ impl SimState {
             faults,
             fired: vec![0; n],
             calls: 0,
-            budget: 20_000,
+            budget: 2_000_000,
             flushes: 0,
             hash: Fnv::default(),
             record,
